@@ -77,6 +77,24 @@ func genC13(e *emitter, tier string) {
 		_, err, p := asTyped(sd, tr, v, dup)
 		e.line(fmt.Sprintf("(c13.validate %s %s %s %s %s)", quote(sd.id), sexpTypeRef(tr), sexpBool(dup), sexpValue(v), okStr(err, p)))
 	}
+	// sets and keyed lists of numbers with far-apart members in every order, one repeated:
+	// the duplicate must be seen wherever the search for it starts
+	kitchen := schemaMenu()[0]
+	for i := 0; i < n/2+1; i++ {
+		pool := []interface{}{int64(6000000000000000000), int64(-6000000000000000000), int64(0), int64(-1), int64(1), 1.5, int64(2)}
+		e.rng.Shuffle(len(pool), func(a, b int) { pool[a], pool[b] = pool[b], pool[a] })
+		k := 3 + e.rng.Intn(len(pool)-2)
+		members := L{}
+		for _, x := range pool[:k] {
+			members = append(members, x)
+		}
+		rep := append(L{}, members...)
+		rep = append(rep, members[e.rng.Intn(len(members))])
+		for _, v := range []interface{}{M{"nset": members}, M{"nset": rep}} {
+			emit(kitchen, kitchen.roots[0], false, v)
+			emit(kitchen, kitchen.roots[0], true, v)
+		}
+	}
 	for i := 0; i < n; i++ {
 		sd := pickSchema(e)
 		tr := pickRoot(e, sd)
